@@ -148,7 +148,7 @@ def run(ctx):
     # (2b) seeded simulation: three (thorough: also four) transactions, wide heights, every oracle
     # answer, resets to arbitrary consistent states
     sims = [(3, 30000, ctx.seed)] if ctx.quick() else \
-           [(3, 120000, ctx.seed), (3, 120000, ctx.seed + 1000), (4, 100000, ctx.seed), (2, 60000, ctx.seed)]
+           [(3, 80000, ctx.seed), (4, 80000, ctx.seed + 1000), (2, 40000, ctx.seed)]
     for (n_tx, depth, seed) in sims:
         cfg = "Sim_%d_%d.cfg" % (n_tx, seed)
         write_cfg(os.path.join(d, cfg), dict(SIM, N=n_tx), sim=True, emit=True, emit_level=10 ** 9)
@@ -160,7 +160,7 @@ def run(ctx):
         n = edges_of(r, path)
         if n < depth // 2:
             raise lib.ToolError("simulation emitted only %d edges" % n)
-        res = replay_edges(ctx, bindir, path, sqlite_every=10, arb=300 if ctx.quick() else 2000)
+        res = replay_edges(ctx, bindir, path, sqlite_every=10, arb=300 if ctx.quick() else 1000)
         if res["edges"] != n:
             raise lib.ToolError("replay consumed %d of %d edges" % (res["edges"], n))
         lib.log("[replay] sim N=%d seed=%d: %d edges, %d bad, steps %s, %d sqlite round trips, %d generated states"
